@@ -591,46 +591,216 @@ theorem dedupSort_perm_eq {l1 l2 : List Annot} (p : l1.Perm l2) (kd : KeyDet l1)
   obtain ⟨h1, h2, h3, h4, h5, h6, h7⟩ := this
   exact ⟨by unfold pathOf; rw [h1], h2, h3, h6, h7, h4, h5⟩
 
-/-! ### exit status -/
+/-! ### exit status: errors, wrapError, GetExitCode -/
 
-/-- The invariant tying the final error to what was printed. -/
-def Consistent (o : Outcome) : Prop :=
-  match o.final with
-  | .ok => o.printed = [] ∧ o.diff = false
-  | .fileAnnotation => o.printed ≠ [] ∨ o.diff = true
-  | .importNotExist => True
-  | .other => o.printed = [] ∧ o.diff = false
+theorem findApp_of_noApp : ∀ {e : GoErr}, e.noApp = true → e.findApp = none
+  | .annotSet _ _, _ => rfl
+  | .importNotExist, _ => rfl
+  | .plain _, _ => rfl
+  | .wrapf i, h => findApp_of_noApp (e := i) h
+  | .app _ _, h => by simp [GoErr.noApp] at h
+  | .sys i, h => findApp_of_noApp (e := i) h
+  | .connect _ i, h => findApp_of_noApp (e := i) h
+  | .join a b, h => by
+    simp only [GoErr.noApp, Bool.and_eq_true] at h
+    simp [GoErr.findApp, findApp_of_noApp h.1, findApp_of_noApp h.2]
 
-theorem failStep_consistent (e : StepErr) : Consistent (failStep e []) := by
-  cases e with
-  | annots hd tl =>
-    simp only [failStep, Consistent, List.nil_append]
-    exact Or.inl (dedupSort_ne_nil (by simp))
-  | importNotExist => simp [failStep, Consistent]
-  | other => simp [failStep, Consistent]
+theorem noApp_of_findSys : ∀ {e u : GoErr}, e.findSys = some u → e.noApp = true → u.noApp = true
+  | .annotSet _ _, _, h, _ => by simp [GoErr.findSys] at h
+  | .importNotExist, _, h, _ => by simp [GoErr.findSys] at h
+  | .plain _, _, h, _ => by simp [GoErr.findSys] at h
+  | .wrapf i, _, h, hn => noApp_of_findSys (e := i) h hn
+  | .app _ _, _, _, hn => by simp [GoErr.noApp] at hn
+  | .sys i, u, h, hn => by
+    simp only [GoErr.findSys, Option.some.injEq] at h
+    subst h; exact hn
+  | .connect _ i, _, h, hn => noApp_of_findSys (e := i) h hn
+  | .join a b, u, h, hn => by
+    simp only [GoErr.noApp, Bool.and_eq_true] at hn
+    simp only [GoErr.findSys] at h
+    cases ha : a.findSys with
+    | some x => rw [ha] at h; simp only [Option.orElse_some, Option.some.injEq] at h; subst h; exact noApp_of_findSys ha hn.1
+    | none => rw [ha] at h; simp only [Option.orElse_none] at h; exact noApp_of_findSys h hn.2
 
-theorem runSteps_consistent : ∀ (steps : List Step) (o : Outcome), runSteps steps = some o → Consistent o
-  | [], _, h => by simp [runSteps] at h
-  | none :: rest, o, h => runSteps_consistent rest o (by simpa [runSteps] using h)
-  | some e :: _, o, h => by
+theorem sysStrip_noApp {e : GoErr} (h : e.noApp = true) : (sysStrip e).noApp = true := by
+  cases hs : e.findSys with
+  | none => simp only [sysStrip, hs]; exact h
+  | some u => simp only [sysStrip, hs, GoErr.noApp]; exact noApp_of_findSys hs h
+
+/-- an error tree that holds a *connect.Error has a non-empty message -/
+theorem text_of_findConnect : ∀ {e : GoErr}, e.findConnect ≠ none → e.text = true
+  | .annotSet _ _, _ => rfl
+  | .importNotExist, _ => rfl
+  | .plain _, h => by simp [GoErr.findConnect] at h
+  | .wrapf _, _ => rfl
+  | .app _ i, h => text_of_findConnect (e := i) h
+  | .sys _, _ => rfl
+  | .connect _ _, _ => rfl
+  | .join _ _, _ => rfl
+
+/-- … and so does one that holds an ImportNotExistError -/
+theorem text_of_hasImport : ∀ {e : GoErr}, e.hasImport = true → e.text = true
+  | .annotSet _ _, _ => rfl
+  | .importNotExist, _ => rfl
+  | .plain _, h => by simp [GoErr.hasImport] at h
+  | .wrapf _, _ => rfl
+  | .app _ i, h => text_of_hasImport (e := i) h
+  | .sys _, _ => rfl
+  | .connect _ _, _ => rfl
+  | .join _ _, _ => rfl
+
+theorem newAppError_100 (i : GoErr) : newAppError exitCodeFileAnnotation i = .app 100 i := by
+  simp [newAppError, exitCodeFileAnnotation]
+
+theorem errFileAnnotation_eq : errFileAnnotation = .app 100 (.plain false) := newAppError_100 _
+
+theorem wrapTail_exit (e : GoErr) (h : e.noApp = true) :
+    getExitCode (some (wrapTail e)) = if (sysStrip e).hasImport then 100 else 1 := by
+  unfold wrapTail
+  simp only [getExitCode, GoErr.findApp]
+  split
+  · rw [newAppError_100]; rfl
+  · rw [findApp_of_noApp (sysStrip_noApp h)]; rfl
+
+/-- THE exit-code mapping of an error that carries no exit code of its own: 100 exactly when
+    wrapError takes its import-not-found branch, 1 otherwise. -/
+theorem wrapError_exit (e : GoErr) (h : e.noApp = true) :
+    getExitCode (wrapError (some e)) = if importBranch e then 100 else 1 := by
+  cases hc : e.findConnect with
+  | none =>
+    cases ht : e.text with
+    | true =>
+      simp only [wrapError, importBranch, hc, ht, if_true, Bool.true_and]
+      exact wrapTail_exit e h
+    | false =>
+      simp only [wrapError, importBranch, hc, ht, Bool.false_eq_true, if_false, Bool.false_and]
+      simp [getExitCode, findApp_of_noApp h]
+  | some s =>
+    cases s with
+    | true => simp [wrapError, importBranch, hc, getExitCode, GoErr.findApp]
+    | false =>
+      simp only [wrapError, importBranch, hc, Bool.not_false, Bool.true_and]
+      exact wrapTail_exit e h
+
+/-- printError prints a "Failure: …" line exactly when the error has a message -/
+theorem wrapError_failureLine (e : GoErr) :
+    textOf (wrapError (some e)) = e.text := by
+  cases hc : e.findConnect with
+  | none =>
+    cases ht : e.text with
+    | true => simp [wrapError, hc, ht, wrapTail, GoErr.text, textOf]
+    | false => simp [wrapError, hc, ht, textOf]
+  | some s =>
+    have ht : e.text = true := text_of_findConnect (by rw [hc]; simp)
+    cases s <;> simp [wrapError, hc, wrapTail, GoErr.text, ht, textOf]
+
+theorem errFileAnnotation_facts :
+    wrapError (some errFileAnnotation) = some errFileAnnotation ∧
+    getExitCode (some errFileAnnotation) = 100 ∧ errFileAnnotation.text = false ∧
+    errFileAnnotation.findAnnots = none ∧ importBranch errFileAnnotation = false := by
+  rw [errFileAnnotation_eq]; decide
+
+/-- what a `wasmRuntime.Close` error must not be for the verdict to survive the join: a system
+    error or a connect error (wrapError would drop the ErrFileAnnotation it is joined with) -/
+def CloseBenign (c : Step) : Prop := ∀ e, c = some e → e.findSys = none ∧ e.findConnect = none
+
+/-- annotations were reported and the close error joined: still 100, now with a Failure line -/
+theorem join_annotation_exit (c : GoErr) (hs : c.findSys = none) (hc : c.findConnect = none) :
+    getExitCode (wrapError (some (.join errFileAnnotation c))) = 100 ∧
+    textOf (wrapError (some (.join errFileAnnotation c))) = true := by
+  refine ⟨?_, by rw [wrapError_failureLine]; rfl⟩
+  have h1 : (GoErr.join errFileAnnotation c).findConnect = none := by
+    rw [errFileAnnotation_eq]; simp [GoErr.findConnect, hc]
+  have h2 : (GoErr.join errFileAnnotation c).findSys = none := by
+    rw [errFileAnnotation_eq]; simp [GoErr.findSys, hs]
+  simp only [wrapError, h1, GoErr.text, if_true, wrapTail, sysStrip, h2, getExitCode, GoErr.findApp]
+  split
+  · rw [newAppError_100]; rfl
+  · rw [errFileAnnotation_eq]; rfl
+
+/-- The shapes the result of a command can have before the close error is joined. -/
+inductive Shape0 (o : Outcome) : Prop where
+  | ok : o.ret = none → o.printed = [] → o.diff = false → Shape0 o
+  | reported : o.ret = some errFileAnnotation → (o.printed ≠ [] ∨ o.diff = true) → Shape0 o
+  | failed (e : GoErr) : o.ret = some e → e.noApp = true → e.text = true → o.printed = [] →
+      o.diff = false → Shape0 o
+
+/-- … and after. -/
+inductive Shape (o : Outcome) : Prop where
+  | base : Shape0 o → Shape o
+  | reportedClose (c : GoErr) : o.ret = some (.join errFileAnnotation c) → c.findSys = none →
+      c.findConnect = none → (o.printed ≠ [] ∨ o.diff = true) → Shape o
+
+/-- the hypothesis on the inputs of the step model: an error returned by a step carries no exit
+    code of its own and has a message -/
+def ErrOK (e : GoErr) : Prop := e.noApp = true ∧ e.text = true
+
+theorem handleFAS_cases (e : GoErr) (h : ErrOK e) :
+    ((handleFAS e).1 = errFileAnnotation ∧ (handleFAS e).2 ≠ []) ∨
+    ((handleFAS e).1 = e ∧ (handleFAS e).2 = []) := by
+  unfold handleFAS
+  cases hf : e.findAnnots with
+  | none => exact Or.inr ⟨rfl, rfl⟩
+  | some p =>
+    obtain ⟨hd, tl⟩ := p
+    exact Or.inl ⟨rfl, dedupSort_ne_nil (by simp)⟩
+
+theorem failStep_shape (e : GoErr) (h : ErrOK e) : Shape0 (failStep e []) := by
+  rcases handleFAS_cases e h with ⟨h1, h2⟩ | ⟨h1, h2⟩
+  · exact .reported (by simp [failStep, h1]) (Or.inl (by simpa [failStep] using h2))
+  · exact .failed e (by simp [failStep, h1]) h.1 h.2 (by simp [failStep, h2]) rfl
+
+theorem failDirect_shape (e : GoErr) (h : ErrOK e) : Shape0 (failDirect e) :=
+  .failed e rfl h.1 h.2 rfl rfl
+
+theorem runSteps_shape : ∀ (steps : List CStep) (o : Outcome),
+    (∀ s ∈ steps, ∀ e, s.2 = some e → ErrOK e) → runSteps steps = some o → Shape0 o
+  | [], _, _, h => by simp [runSteps] at h
+  | (_, none) :: rest, o, hs, h =>
+    runSteps_shape rest o (fun s hm => hs s (List.mem_cons_of_mem _ hm)) (by simpa [runSteps] using h)
+  | (true, some e) :: _, o, hs, h => by
     simp only [runSteps, Option.some.injEq] at h
-    exact h ▸ failStep_consistent e
+    exact h ▸ failStep_shape e (hs _ List.mem_cons_self e rfl)
+  | (false, some e) :: _, o, hs, h => by
+    simp only [runSteps, Option.some.injEq] at h
+    exact h ▸ failDirect_shape e (hs _ List.mem_cons_self e rfl)
 
-theorem checkLoop_consistent : ∀ (steps : List Step) (acc : List Annot), Consistent (checkLoop steps acc)
-  | [], acc => by
+theorem checkLoop_shape : ∀ (steps : List Step) (acc : List Annot),
+    (∀ s ∈ steps, ∀ e, s = some e → ErrOK e) → Shape0 (checkLoop steps acc)
+  | [], acc, _ => by
     simp only [checkLoop]
     split
-    · simp [Consistent]
-    · rename_i h; simp only [Consistent]; exact Or.inl (dedupSort_ne_nil h)
-  | none :: rest, acc => by simp only [checkLoop]; exact checkLoop_consistent rest acc
-  | some (.annots hd tl) :: rest, acc => by simp only [checkLoop]; exact checkLoop_consistent rest _
-  | some .importNotExist :: _, _ => by simp [checkLoop, Consistent]
-  | some .other :: _, _ => by simp [checkLoop, Consistent]
+    · exact .ok rfl rfl rfl
+    · rename_i h; exact .reported rfl (Or.inl (dedupSort_ne_nil h))
+  | none :: rest, acc, hs => by
+    simp only [checkLoop]; exact checkLoop_shape rest acc (fun s hm => hs s (List.mem_cons_of_mem _ hm))
+  | some e :: rest, acc, hs => by
+    simp only [checkLoop]
+    split
+    · exact checkLoop_shape rest _ (fun s hm => hs s (List.mem_cons_of_mem _ hm))
+    · exact failDirect_shape e (hs _ List.mem_cons_self e rfl)
 
-theorem runSteps_eq_none_iff : ∀ (steps : List Step), runSteps steps = none ↔ ∀ s ∈ steps, s = none
+theorem runSteps_eq_none_iff : ∀ (steps : List CStep), runSteps steps = none ↔ ∀ s ∈ steps, s.2 = none
   | [] => by simp [runSteps]
-  | none :: rest => by simp [runSteps, runSteps_eq_none_iff rest]
-  | some e :: _ => by simp [runSteps]
+  | (v, none) :: rest => by simp [runSteps, runSteps_eq_none_iff rest]
+  | (true, some e) :: _ => by simp [runSteps]
+  | (false, some e) :: _ => by simp [runSteps]
+
+/-- joining the close error keeps the result within the shapes -/
+theorem join_shape (o : Outcome) (c : Step) (ho : Shape0 o) (hc : ∀ e, c = some e → ErrOK e)
+    (hb : CloseBenign c) : Shape { o with ret := joinErr o.ret c } := by
+  cases c with
+  | none =>
+    have : joinErr o.ret none = o.ret := by cases o.ret <;> rfl
+    rw [this]; exact .base ho
+  | some ce =>
+    have hce := hc ce rfl
+    have hbe := hb ce rfl
+    cases ho with
+    | ok h1 h2 h3 => exact .base (.failed ce (by simp [h1, joinErr]) hce.1 hce.2 h2 h3)
+    | reported h1 h2 => exact .reportedClose ce (by simp [h1, joinErr]) hbe.1 hbe.2 h2
+    | failed e h1 h2 h3 h4 h5 =>
+      exact .base (.failed (.join e ce) (by simp [h1, joinErr]) (by simp [GoErr.noApp, h2, hce.1]) rfl h4 h5)
 
 /-- complete description of the return path of a mode whose performed I/O steps succeed -/
 theorem fmtTail_clean (m : FmtMode) (d : Bool) (io : FmtIO) (h : ∀ s ∈ m.ioSteps d io, s = none) :
@@ -646,55 +816,80 @@ theorem fmtTail_clean (m : FmtMode) (d : Bool) (io : FmtIO) (h : ∀ s ∈ m.ioS
 
 /-- a performed I/O step that fails makes the run fail with that step's error -/
 theorem fmtTail_dirty (m : FmtMode) (d : Bool) (io : FmtIO) (h : ¬ ∀ s ∈ m.ioSteps d io, s = none) :
-    ∃ e, (fmtTail m d io).1 = failStep e [] := by
+    ∃ e, some e ∈ m.ioSteps d io ∧ (fmtTail m d io).1 = failDirect e := by
   rcases m with ⟨md, mw, mo, me⟩
   rcases io with ⟨c, r, o⟩
   cases md <;> cases mw <;> cases mo <;> cases d <;> cases c <;> cases r <;> cases o <;>
-    simp_all [fmtTail, FmtMode.ioSteps, FmtEffects.none] <;> exact ⟨_, rfl⟩
+    simp_all [fmtTail, FmtMode.ioSteps, FmtEffects.none]
 
-theorem failStep_diff (e : StepErr) : (failStep e []).diff = false := by
-  cases e <;> rfl
+theorem failStep_diff (e : GoErr) : (failStep e []).diff = false := rfl
+theorem failDirect_diff (e : GoErr) : (failDirect e).diff = false := rfl
 
-theorem runSteps_diff : ∀ (steps : List Step) (o : Outcome), runSteps steps = some o → o.diff = false
+theorem runSteps_diff : ∀ (steps : List CStep) (o : Outcome), runSteps steps = some o → o.diff = false
   | [], _, h => by simp [runSteps] at h
-  | none :: rest, o, h => runSteps_diff rest o (by simpa [runSteps] using h)
-  | some e :: _, o, h => by
+  | (_, none) :: rest, o, h => runSteps_diff rest o (by simpa [runSteps] using h)
+  | (true, some e) :: _, o, h => by
     simp only [runSteps, Option.some.injEq] at h
     exact h ▸ failStep_diff e
+  | (false, some e) :: _, o, h => by
+    simp only [runSteps, Option.some.injEq] at h
+    exact h ▸ failDirect_diff e
 
-theorem fmtDeferred_consistent (m : FmtMode) (d : Bool) : Consistent (fmtDeferred m d) := by
+theorem fmtDeferred_shape (m : FmtMode) (d : Bool) : Shape0 (fmtDeferred m d) := by
   unfold fmtDeferred
-  split <;> simp [Consistent]
-
-theorem fmtTail_consistent (m : FmtMode) (d : Bool) (io : FmtIO) : Consistent (fmtTail m d io).1 := by
-  unfold fmtTail
-  dsimp only
   split
-  · exact failStep_consistent _
-  · split
-    · exact fmtDeferred_consistent m d
-    · split
-      · split
-        · exact failStep_consistent _
-        · exact fmtDeferred_consistent m d
-      · split
-        · exact failStep_consistent _
-        · exact fmtDeferred_consistent m d
+  · exact .reported rfl (Or.inr rfl)
+  · exact .ok rfl rfl rfl
 
-theorem formatFull_consistent (m : FmtMode) (sw : Bool) (ctl : List Step) (f : Step) (d : Bool)
-    (io : FmtIO) : Consistent (formatFull m sw ctl f d io).1 := by
+theorem mem_ioSteps {m : FmtMode} {d : Bool} {io : FmtIO} {s : Step} (h : s ∈ m.ioSteps d io) :
+    s = io.copyDiff ∨ s = io.rewrite ∨ s = io.output := by
+  unfold FmtMode.ioSteps at h
+  rcases List.mem_append.mp h with h | h
+  · split at h
+    · exact Or.inl (List.mem_singleton.mp h)
+    · cases h
+  · split at h
+    · cases h
+    · split at h
+      · split at h
+        · exact Or.inr (Or.inl (List.mem_singleton.mp h))
+        · cases h
+      · exact Or.inr (Or.inr (List.mem_singleton.mp h))
+
+theorem fmtTail_shape (m : FmtMode) (d : Bool) (io : FmtIO)
+    (h : ∀ e, (io.copyDiff = some e ∨ io.rewrite = some e ∨ io.output = some e) → ErrOK e) :
+    Shape0 (fmtTail m d io).1 := by
+  by_cases hio : ∀ s ∈ m.ioSteps d io, s = none
+  · rw [fmtTail_clean m d io hio]; exact fmtDeferred_shape m d
+  · obtain ⟨e, hm, he⟩ := fmtTail_dirty m d io hio
+    rw [he]
+    refine failDirect_shape e (h e ?_)
+    rcases mem_ioSteps hm with h | h | h
+    · exact Or.inl h.symm
+    · exact Or.inr (Or.inl h.symm)
+    · exact Or.inr (Or.inr h.symm)
+
+theorem formatFull_shape (m : FmtMode) (sw : Bool) (ctl : List CStep) (f : Step) (d : Bool)
+    (io : FmtIO) (hc : ∀ s ∈ ctl, ∀ e, s.2 = some e → ErrOK e) (hf : ∀ e, f = some e → ErrOK e)
+    (hio : ∀ e, (io.copyDiff = some e ∨ io.rewrite = some e ∨ io.output = some e) → ErrOK e) :
+    Shape0 (formatFull m sw ctl f d io).1 := by
   unfold formatFull
   split
-  · exact failStep_consistent .other
+  · exact failDirect_shape _ ⟨rfl, rfl⟩
   · split
-    · rename_i o h; exact runSteps_consistent _ o h
-    · exact fmtTail_consistent m d io
+    · rename_i o h
+      refine runSteps_shape _ o ?_ h
+      intro s hs e he
+      rcases List.mem_append.mp hs with h | h
+      · exact hc s h e he
+      · rw [List.mem_singleton] at h; subst h; exact hf e he
+    · exact fmtTail_shape m d io hio
 
 /-- the run reaches the mode's return path and every I/O step the mode performs succeeds -/
-def FmtClean (m : FmtMode) (sw : Bool) (ctl : List Step) (f : Step) (d : Bool) (io : FmtIO) : Prop :=
-  m.valid sw = true ∧ (∀ s ∈ ctl, s = none) ∧ f = none ∧ (∀ s ∈ m.ioSteps d io, s = none)
+def FmtClean (m : FmtMode) (sw : Bool) (ctl : List CStep) (f : Step) (d : Bool) (io : FmtIO) : Prop :=
+  m.valid sw = true ∧ (∀ s ∈ ctl, s.2 = none) ∧ f = none ∧ (∀ s ∈ m.ioSteps d io, s = none)
 
-theorem formatFull_clean {m : FmtMode} {sw : Bool} {ctl : List Step} {f : Step} {d : Bool} {io : FmtIO}
+theorem formatFull_clean {m : FmtMode} {sw : Bool} {ctl : List CStep} {f : Step} {d : Bool} {io : FmtIO}
     (h : FmtClean m sw ctl f d io) :
     formatFull m sw ctl f d io = (fmtDeferred m d,
       { stdoutDiff := m.diff && d,
@@ -702,37 +897,106 @@ theorem formatFull_clean {m : FmtMode} {sw : Bool} {ctl : List Step} {f : Step} 
         rewrote := m.write && d,
         wroteOut := !m.write && m.out == .path }) := by
   obtain ⟨hv, hc, hf, hio⟩ := h
-  have hr : runSteps (ctl ++ [f]) = none := by
+  have hr : runSteps (ctl ++ [(false, f)]) = none := by
     rw [runSteps_eq_none_iff]
     intro s hs
     rcases List.mem_append.mp hs with h | h
     · exact hc s h
-    · rw [List.mem_singleton] at h; rw [h, hf]
+    · rw [List.mem_singleton] at h; rw [h]; exact hf
   unfold formatFull
   rw [hv, hr]
   simp only [Bool.not_true, Bool.false_eq_true, if_false]
   exact fmtTail_clean m d io hio
 
-theorem run_consistent (c : Cmd) : Consistent c.run := by
+/-- the hypotheses of the exit-status theorems: every error a step returns carries no exit code
+    of its own and has a message; the `wasmRuntime.Close` error is no system / connect error -/
+def StepsOK (c : Cmd) : Prop := (∀ e ∈ c.stepErrs, ErrOK e) ∧ CloseBenign c.closeErr
+
+theorem mem_filterMap_id {l : List Step} {e : GoErr} : e ∈ l.filterMap id ↔ some e ∈ l := by
+  simp [List.mem_filterMap]
+
+theorem lintLike_shape (p : List Step) (b : List CStep) (k : List Step) (cl : Step)
+    (h : ∀ e, some e ∈ p ++ b.map (·.2) ++ k ++ [cl] → ErrOK e) (hb : CloseBenign cl) :
+    Shape (lintLike p b k cl) := by
+  unfold lintLike
+  split
+  · rename_i o ho
+    refine .base (runSteps_shape _ o ?_ ho)
+    intro s hs e he
+    obtain ⟨x, hx, rfl⟩ := List.mem_map.mp hs
+    simp only at he
+    exact h e (by simp [← he, hx])
+  · refine join_shape _ cl ?_ (fun e he => h e (by simp [he])) hb
+    split
+    · rename_i o ho
+      refine runSteps_shape _ o ?_ ho
+      intro s hs e he
+      exact h e (by
+        have : some e ∈ b.map (·.2) := List.mem_map.mpr ⟨s, hs, he⟩
+        simp [this])
+    · refine checkLoop_shape _ _ ?_
+      intro s hs e he
+      exact h e (by simp [← he, hs])
+
+theorem run_shape (c : Cmd) (h : StepsOK c) : Shape c.run := by
+  obtain ⟨h1, h2⟩ := h
   cases c with
-  | lint ctl k =>
-    simp only [Cmd.run, lintLike]
-    split
-    · rename_i o h; exact runSteps_consistent _ o h
-    · exact checkLoop_consistent _ _
-  | breaking ctl k =>
-    simp only [Cmd.run, lintLike]
-    split
-    · rename_i o h; exact runSteps_consistent _ o h
-    · exact checkLoop_consistent _ _
-  | build ctl =>
+  | lint p b k cl =>
+    exact lintLike_shape p b k cl (fun e he => h1 e (mem_filterMap_id.mpr he)) h2
+  | breaking p b k cl =>
+    exact lintLike_shape p b k cl (fun e he => h1 e (mem_filterMap_id.mpr he)) h2
+  | build s =>
     simp only [Cmd.run, build]
     split
-    · rename_i o h; exact runSteps_consistent _ o h
-    · simp [Consistent]
+    · rename_i o ho
+      refine .base (runSteps_shape _ o ?_ ho)
+      intro st hs e he
+      exact h1 e (mem_filterMap_id.mpr (List.mem_map.mpr ⟨st, hs, he⟩))
+    · exact .base (.ok rfl rfl rfl)
+  | depGraph s =>
+    simp only [Cmd.run, build]
+    split
+    · rename_i o ho
+      refine .base (runSteps_shape _ o ?_ ho)
+      intro st hs e he
+      exact h1 e (mem_filterMap_id.mpr (List.mem_map.mpr ⟨st, hs, he⟩))
+    · exact .base (.ok rfl rfl rfl)
   | format m sw ctl f d io =>
     simp only [Cmd.run, format]
-    exact formatFull_consistent m sw ctl f d io
+    refine .base (formatFull_shape m sw ctl f d io ?_ ?_ ?_)
+    · intro s hs e he
+      exact h1 e (mem_filterMap_id.mpr (by
+        have : some e ∈ ctl.map (·.2) := List.mem_map.mpr ⟨s, hs, he⟩
+        simp [this]))
+    · intro e he; exact h1 e (mem_filterMap_id.mpr (by simp [he]))
+    · intro e he
+      refine h1 e (mem_filterMap_id.mpr ?_)
+      rcases he with he | he | he <;> simp [he]
+
+/-- the observables of each shape -/
+theorem shape_observables {o : Outcome} (h : Shape o) :
+    (o.exit = 0 ∧ o.printed = [] ∧ o.failureLine = false ∧ o.diff = false ∧ o.importNotFound = false ∧ o.ret = none) ∨
+    (o.exit = 100 ∧ (o.printed ≠ [] ∨ o.diff = true) ∧ ∃ e, o.ret = some e ∧ e.noApp = false) ∨
+    (∃ e, o.ret = some e ∧ e.noApp = true ∧ o.exit = (if importBranch e then 100 else 1) ∧
+      o.printed = [] ∧ o.failureLine = true ∧ o.diff = false ∧ o.importNotFound = importBranch e) := by
+  cases h with
+  | base h0 =>
+    cases h0 with
+    | ok h1 h2 h3 =>
+      exact Or.inl ⟨by simp [Outcome.exit, Outcome.err, h1, wrapError, getExitCode], h2,
+        by simp [Outcome.failureLine, Outcome.err, h1, wrapError, textOf], h3,
+        by simp [Outcome.importNotFound, h1], h1⟩
+    | reported h1 h2 =>
+      refine Or.inr (Or.inl ⟨?_, h2, _, h1, by rw [errFileAnnotation_eq]; rfl⟩)
+      simp only [Outcome.exit, Outcome.err, h1, errFileAnnotation_facts.1, errFileAnnotation_facts.2.1]
+    | failed e h1 h2 h3 h4 h5 =>
+      refine Or.inr (Or.inr ⟨e, h1, h2, ?_, h4, ?_, h5, by simp [Outcome.importNotFound, h1]⟩)
+      · simp only [Outcome.exit, Outcome.err, h1]; exact wrapError_exit e h2
+      · simp only [Outcome.failureLine, Outcome.err, h1]; rw [wrapError_failureLine, h3]
+  | reportedClose c h1 hs hc h2 =>
+    refine Or.inr (Or.inl ⟨?_, h2, _, h1, by rw [errFileAnnotation_eq]; rfl⟩)
+    simp only [Outcome.exit, Outcome.err, h1]
+    exact (join_annotation_exit c hs hc).1
 
 /-! ### groupAnnotationsByPath: flattening the JUnit suites gives back the list when equal
     displayed paths are adjacent -/
@@ -916,119 +1180,6 @@ theorem contig_of_sorted : ∀ (l pre : List Annot), (pre ++ l).Pairwise LE → 
 theorem sorted_contig {l : List Annot} (hs : l.Pairwise LE) (hi : DispInj l) : ContigFrom [] none l := by
   simpa using contig_of_sorted l [] (by simpa using hs) (by simpa using hi)
 
-/-! ### every format carries the fields of the JSON record -/
-
-/-- path shown for a JSON record: a record without `path` key is a path-less annotation -/
-def recPath (r : JsonRec) : Str := if r.path = [] then inputPath else r.path
-def recShownMsg (r : JsonRec) : Str :=
-  if r.msg = [] then (if r.type = [] then failureStr else r.type) else r.msg
-def recShownType (r : JsonRec) : Str := if r.type = [] then failureStr else r.type
-
-/-- the text line as a function of the JSON record -/
-def textOfRec (r : JsonRec) : Str :=
-  recPath r ++ ':' :: itoa r.sl ++ ':' :: itoa r.sc ++ ':' :: recShownMsg r ++ pluginSuffix id r.plugin
-
-/-- the msvs line as a function of the JSON record -/
-def msvsOfRec (r : JsonRec) : Str :=
-  oneLine (recPath r) ++ '(' :: itoa r.sl ++ ',' :: itoa r.sc ++ ") : error ".toList
-    ++ oneLine (recShownType r) ++ " : ".toList ++ oneLine (recShownMsg r) ++ pluginSuffix oneLine r.plugin
-
-theorem recPath_jsonRec {a : Annot} (h : a.file ≠ some []) : recPath (jsonRec a) = dispPath a := by
-  unfold recPath jsonRec pathOf dispPath
-  cases hf : a.file with
-  | none => simp
-  | some p =>
-    have : p ≠ [] := fun e => h (by rw [hf, e])
-    simp [this]
-
-/-! ### GitHub's escaping can be undone: the runner reads back the original path and message -/
-
-/-- the runner's unescape for property values (%25 %0D %0A %3A %2C) -/
-def unescProp : Str → Str
-  | c :: a :: b :: t =>
-    if c = '%' ∧ a = '2' ∧ b = '5' then '%' :: unescProp t
-    else if c = '%' ∧ a = '0' ∧ b = 'D' then '\r' :: unescProp t
-    else if c = '%' ∧ a = '0' ∧ b = 'A' then '\n' :: unescProp t
-    else if c = '%' ∧ a = '3' ∧ b = 'A' then ':' :: unescProp t
-    else if c = '%' ∧ a = '2' ∧ b = 'C' then ',' :: unescProp t
-    else c :: unescProp (a :: b :: t)
-  | [c, a] => [c, a]
-  | [c] => [c]
-  | [] => []
-termination_by s => s.length
-decreasing_by all_goals (simp only [List.length_cons]; omega)
-
-/-- the runner's unescape for command data (%25 %0D %0A) -/
-def unescData : Str → Str
-  | c :: a :: b :: t =>
-    if c = '%' ∧ a = '2' ∧ b = '5' then '%' :: unescData t
-    else if c = '%' ∧ a = '0' ∧ b = 'D' then '\r' :: unescData t
-    else if c = '%' ∧ a = '0' ∧ b = 'A' then '\n' :: unescData t
-    else c :: unescData (a :: b :: t)
-  | [c, a] => [c, a]
-  | [c] => [c]
-  | [] => []
-termination_by s => s.length
-decreasing_by all_goals (simp only [List.length_cons]; omega)
-
-def escPropChar (c : Char) : Str :=
-  if c = '%' then "%25".toList else if c = '\r' then "%0D".toList
-  else if c = '\n' then "%0A".toList else if c = ':' then "%3A".toList
-  else if c = ',' then "%2C".toList else [c]
-
-def escDataChar (c : Char) : Str :=
-  if c = '%' then "%25".toList else if c = '\r' then "%0D".toList
-  else if c = '\n' then "%0A".toList else [c]
-
-theorem escProp_cons (c : Char) (t : Str) : escProp (c :: t) = escPropChar c ++ escProp t := by
-  simp only [escProp, List.flatMap_cons, escPropChar]
-
-theorem escData_cons (c : Char) (t : Str) : escData (c :: t) = escDataChar c ++ escData t := by
-  simp only [escData, List.flatMap_cons, escDataChar]
-
-/-- a plain character (not '%') in front is copied -/
-theorem unescProp_plain {c : Char} (h : c ≠ '%') : ∀ t : Str, unescProp (c :: t) = c :: unescProp t
-  | [] => by simp [unescProp]
-  | [a] => by simp [unescProp]
-  | a :: b :: t => by rw [unescProp]; simp [h]
-
-theorem unescData_plain {c : Char} (h : c ≠ '%') : ∀ t : Str, unescData (c :: t) = c :: unescData t
-  | [] => by simp [unescData]
-  | [a] => by simp [unescData]
-  | a :: b :: t => by rw [unescData]; simp [h]
-
-theorem unescProp_escProp : ∀ s : Str, unescProp (escProp s) = s
-  | [] => by simp [escProp, unescProp]
-  | c :: t => by
-    have ih := unescProp_escProp t
-    rw [escProp_cons]
-    by_cases h1 : c = '%'
-    · subst h1; simp [escPropChar, unescProp, ih]
-    · by_cases h2 : c = '\r'
-      · subst h2; simp [escPropChar, unescProp, ih]
-      · by_cases h3 : c = '\n'
-        · subst h3; simp [escPropChar, unescProp, ih]
-        · by_cases h4 : c = ':'
-          · subst h4; simp [escPropChar, unescProp, ih]
-          · by_cases h5 : c = ','
-            · subst h5; simp [escPropChar, unescProp, ih]
-            · simp only [escPropChar, if_neg h1, if_neg h2, if_neg h3, if_neg h4, if_neg h5, List.singleton_append]
-              rw [unescProp_plain h1, ih]
-
-theorem unescData_escData : ∀ s : Str, unescData (escData s) = s
-  | [] => by simp [escData, unescData]
-  | c :: t => by
-    have ih := unescData_escData t
-    rw [escData_cons]
-    by_cases h1 : c = '%'
-    · subst h1; simp [escDataChar, unescData, ih]
-    · by_cases h2 : c = '\r'
-      · subst h2; simp [escDataChar, unescData, ih]
-      · by_cases h3 : c = '\n'
-        · subst h3; simp [escDataChar, unescData, ih]
-        · simp only [escDataChar, if_neg h1, if_neg h2, if_neg h3, List.singleton_append]
-          rw [unescData_plain h1, ih]
-
 /-- an escaped property value contains no ',' and no ':' — the value ends where the next
     `,key=` or the `::` begins -/
 theorem escProp_no_sep (s : Str) : ∀ c ∈ escProp s, c ≠ ',' ∧ c ≠ ':' := by
@@ -1048,5 +1199,603 @@ theorem escProp_no_sep (s : Str) : ∀ c ∈ escProp s, c ≠ ',' ∧ c ≠ ':' 
           · rename_i h1 h2 h3 h4 h5
             simp only [List.mem_singleton] at hd
             subst hd; exact ⟨h5, h4⟩
+
+/-! ### decoders: the primitive readers -/
+
+theorem cutAt_append (sep : Char) : ∀ (p r : Str), (∀ c ∈ p, c ≠ sep) → cutAt sep (p ++ sep :: r) = some (p, r)
+  | [], r, _ => by simp [cutAt]
+  | c :: cs, r, h => by
+    have hc : c ≠ sep := h c List.mem_cons_self
+    simp only [List.cons_append, cutAt, if_neg hc,
+      cutAt_append sep cs r (fun d hd => h d (List.mem_cons_of_mem _ hd)), Option.map_some]
+
+/-- what `cutAt` returns in front never contains the separator, and the pieces give back the input -/
+theorem cutAt_spec (sep : Char) : ∀ (s a b : Str), cutAt sep s = some (a, b) →
+    (∀ c ∈ a, c ≠ sep) ∧ s = a ++ sep :: b
+  | [], _, _, h => by simp [cutAt] at h
+  | c :: cs, a, b, h => by
+    simp only [cutAt] at h
+    split at h
+    · rename_i hc
+      simp only [Option.some.injEq, Prod.mk.injEq] at h
+      obtain ⟨rfl, rfl⟩ := h
+      exact ⟨by simp, by simp [hc]⟩
+    · rename_i hc
+      cases hr : cutAt sep cs with
+      | none => rw [hr] at h; simp at h
+      | some ab =>
+        rw [hr] at h
+        simp only [Option.map_some, Option.some.injEq, Prod.mk.injEq] at h
+        obtain ⟨rfl, rfl⟩ := h
+        obtain ⟨h1, h2⟩ := cutAt_spec sep cs ab.1 ab.2 hr
+        refine ⟨?_, by rw [h2]; simp⟩
+        intro d hd
+        rcases List.mem_cons.mp hd with rfl | hd
+        · exact hc
+        · exact h1 d hd
+
+theorem dropPrefix_append : ∀ (p r : Str), dropPrefix p (p ++ r) = some r
+  | [], r => by cases r <;> rfl
+  | c :: cs, r => by simp [dropPrefix, dropPrefix_append cs r]
+
+theorem dropPrefix_spec : ∀ (p s r : Str), dropPrefix p s = some r → s = p ++ r
+  | [], s, r, h => by
+    cases s <;> simp [dropPrefix] at h <;> simp [h]
+  | c :: cs, [], r, h => by simp [dropPrefix] at h
+  | c :: cs, d :: ds, r, h => by
+    simp only [dropPrefix] at h
+    split at h
+    · rename_i hcd
+      rw [hcd, dropPrefix_spec cs ds r h]; rfl
+    · cases h
+
+/-- the rest does not start with a digit -/
+def NoDigitHead (r : Str) : Prop := ∀ c t, r = c :: t → c.isDigit = false
+
+theorem noDigitHead_nil : NoDigitHead [] := by intro c t h; cases h
+theorem noDigitHead_cons {c : Char} {t : Str} (h : c.isDigit = false) : NoDigitHead (c :: t) := by
+  intro d u e; cases e; exact h
+
+theorem itoa_ne_nil (n : Nat) : itoa n ≠ [] := by
+  intro h
+  have : n = 0 := by
+    have := @Nat.ofDigitChars_ten_toDigits n
+    unfold itoa at h; rw [h] at this; simpa [Nat.ofDigitChars] using this.symm
+  subst this; revert h; decide
+
+theorem takeWhile_noDigitHead {r : Str} (h : NoDigitHead r) : r.takeWhile Char.isDigit = [] := by
+  cases r with
+  | nil => rfl
+  | cons c t => simp [List.takeWhile, h c t rfl]
+
+theorem dropWhile_noDigitHead {r : Str} (h : NoDigitHead r) : r.dropWhile Char.isDigit = r := by
+  cases r with
+  | nil => rfl
+  | cons c t => simp [List.dropWhile, h c t rfl]
+
+theorem readNat_itoa (n : Nat) (r : Str) (h : NoDigitHead r) : readNat (itoa n ++ r) = some (n, r) := by
+  have hd : ∀ c ∈ itoa n, c.isDigit = true := fun c hc => itoa_digit hc
+  unfold readNat
+  simp only [List.takeWhile_append_of_pos hd, List.dropWhile_append_of_pos hd, takeWhile_noDigitHead h,
+    dropWhile_noDigitHead h, List.append_nil, if_neg (itoa_ne_nil n)]
+  unfold itoa; rw [Nat.ofDigitChars_ten_toDigits]
+
+theorem readNat_itoa_colon (n : Nat) (t : Str) : readNat (itoa n ++ ':' :: t) = some (n, ':' :: t) :=
+  readNat_itoa n _ (noDigitHead_cons (by decide))
+theorem readNat_itoa_comma (n : Nat) (t : Str) : readNat (itoa n ++ ',' :: t) = some (n, ',' :: t) :=
+  readNat_itoa n _ (noDigitHead_cons (by decide))
+theorem readNat_itoa_paren (n : Nat) (t : Str) : readNat (itoa n ++ ')' :: t) = some (n, ')' :: t) :=
+  readNat_itoa n _ (noDigitHead_cons (by decide))
+theorem readNat_itoa_under (n : Nat) (t : Str) : readNat (itoa n ++ '_' :: t) = some (n, '_' :: t) :=
+  readNat_itoa n _ (noDigitHead_cons (by decide))
+theorem readNat_itoa_end (n : Nat) : readNat (itoa n) = some (n, []) := by
+  have := readNat_itoa n [] noDigitHead_nil
+  simpa using this
+
+/-! ### text -/
+
+/-- the text decoder inverts the text printer when the displayed path has no ':' -/
+theorem parseTextLine_textLine (a : Annot) (h : ∀ c ∈ dispPath a, c ≠ ':') :
+    parseTextLine (textLine a) = some (textF a) := by
+  have e : textLine a = dispPath a ++ ':' :: (itoa (atLeast1 a.sl) ++ ':' :: (itoa (atLeast1 a.sc) ++
+      ':' :: withPlugin (shownMsg a) a.plugin)) := by
+    simp [textLine, withPlugin, List.append_assoc]
+  rw [e]
+  simp only [parseTextLine, cutAt_append ':' _ _ h, readNat_itoa_colon, Option.bind_eq_bind, Option.bind_some,
+    dropPrefix, if_true]
+  rfl
+
+/-- … and ONLY then: whatever the text decoder returns as path has no ':' -/
+theorem parseTextLine_path {s : Str} {t : TextF} (h : parseTextLine s = some t) : ∀ c ∈ t.path, c ≠ ':' := by
+  unfold parseTextLine at h
+  cases hc : cutAt ':' s with
+  | none => rw [hc] at h; simp at h
+  | some pr =>
+    obtain ⟨p, r⟩ := pr
+    rw [hc] at h
+    have hp := (cutAt_spec ':' s p r hc).1
+    simp only [Option.bind_eq_bind, Option.bind_some] at h
+    cases h1 : readNat r with
+    | none => rw [h1] at h; simp at h
+    | some lr =>
+      rw [h1] at h
+      simp only [Option.bind_some] at h
+      cases h2 : dropPrefix [':'] lr.2 with
+      | none => rw [h2] at h; simp at h
+      | some r2 =>
+        rw [h2] at h
+        simp only [Option.bind_some] at h
+        cases h3 : readNat r2 with
+        | none => rw [h3] at h; simp at h
+        | some cr =>
+          rw [h3] at h
+          simp only [Option.bind_some] at h
+          cases h4 : dropPrefix [':'] cr.2 with
+          | none => rw [h4] at h; simp at h
+          | some r4 =>
+            rw [h4] at h
+            simp only [Option.bind_some, Option.pure_def, Option.some.injEq] at h
+            rw [← h]; exact hp
+
+/-! ### msvs -/
+
+theorem oneLine_append (s t : Str) : oneLine (s ++ t) = oneLine s ++ oneLine t := by
+  simp [oneLine]
+
+theorem oneLine_id {s : Str} (h : ∀ c ∈ s, c ≠ '\n' ∧ c ≠ '\r') : oneLine s = s := by
+  unfold oneLine
+  conv => rhs; rw [← List.map_id s]
+  apply List.map_congr_left
+  intro c hc
+  have := h c hc
+  simp [this.1, this.2]
+
+theorem pluginSuffix_oneLine_eq (p : Str) : pluginSuffix oneLine p = oneLine (pluginSuffix id p) := by
+  unfold pluginSuffix
+  split
+  · rfl
+  · simp only [id, oneLine_append]
+    rw [oneLine_id (s := " (".toList) (by decide), oneLine_id (s := [')']) (by decide)]
+
+theorem mem_oneLine_ne {x : Char} (hx : x ≠ ' ') {s : Str} (h : ∀ c ∈ s, c ≠ x) : ∀ c ∈ oneLine s, c ≠ x := by
+  intro c hc
+  simp only [oneLine, List.mem_map] at hc
+  obtain ⟨d, hd, rfl⟩ := hc
+  split
+  · exact fun e => hx e.symm
+  · exact h d hd
+
+theorem getLast?_concat' (s : Str) (c : Char) : (s ++ [c]).getLast? = some c := by simp
+
+/-- the msvs decoder inverts the msvs printer when the displayed path has no '(' and the shown
+    type no ':' -/
+theorem parseMsvsLine_msvsLine (a : Annot) (hp : ∀ c ∈ dispPath a, c ≠ '(')
+    (ht : ∀ c ∈ shownType a, c ≠ ':') : parseMsvsLine (msvsLine a) = some (msvsF a) := by
+  have e : msvsLine a = oneLine (dispPath a) ++ '(' :: (itoa (atLeast1 a.sl) ++ ',' :: (itoa (atLeast1 a.sc) ++
+      (") : error ".toList ++ ((oneLine (shownType a) ++ [' ']) ++ ':' :: (' ' ::
+        oneLine (withPlugin (shownMsg a) a.plugin)))))) := by
+    simp [msvsLine, msvsLineWith, withPlugin, oneLine_append, pluginSuffix_oneLine_eq, List.append_assoc]
+  have hty : ∀ c ∈ oneLine (shownType a) ++ [' '], c ≠ ':' := by
+    intro c hc
+    rcases List.mem_append.mp hc with h | h
+    · exact mem_oneLine_ne (by decide) ht c h
+    · rw [List.mem_singleton.mp h]; decide
+  rw [e]
+  simp only [parseMsvsLine, cutAt_append '(' _ _ (mem_oneLine_ne (by decide) hp), readNat_itoa_comma,
+    Option.bind_eq_bind, Option.bind_some, dropPrefix, if_true]
+  rw [show ") : error ".toList ++ ((oneLine (shownType a) ++ [' ']) ++ ':' :: (' ' :: oneLine (withPlugin (shownMsg a) a.plugin)))
+      = ')' :: (" : error ".toList ++ ((oneLine (shownType a) ++ [' ']) ++ ':' :: (' ' :: oneLine (withPlugin (shownMsg a) a.plugin)))) from rfl,
+    readNat_itoa_paren]
+  simp only [Option.bind_some]
+  rw [show ')' :: (" : error ".toList ++ ((oneLine (shownType a) ++ [' ']) ++ ':' :: (' ' :: oneLine (withPlugin (shownMsg a) a.plugin))))
+      = ") : error ".toList ++ ((oneLine (shownType a) ++ [' ']) ++ ':' :: (' ' :: oneLine (withPlugin (shownMsg a) a.plugin))) from rfl,
+    dropPrefix_append]
+  simp only [Option.bind_some, cutAt_append ':' _ _ hty, dropTrailingSpace, getLast?_concat', if_true,
+    List.dropLast_concat, dropPrefix]
+  rfl
+
+theorem parseMsvsLine_fields {s : Str} {m : MsvsF} (h : parseMsvsLine s = some m) :
+    (∀ c ∈ m.path, c ≠ '(') ∧ (∀ c ∈ m.type, c ≠ ':') := by
+  unfold parseMsvsLine at h
+  cases hc : cutAt '(' s with
+  | none => rw [hc] at h; simp at h
+  | some pr =>
+    obtain ⟨p, r⟩ := pr
+    rw [hc] at h
+    have hp := (cutAt_spec '(' s p r hc).1
+    simp only [Option.bind_eq_bind, Option.bind_some] at h
+    cases h1 : readNat r with
+    | none => rw [h1] at h; simp at h
+    | some lr =>
+      rw [h1] at h; simp only [Option.bind_some] at h
+      cases h2 : dropPrefix [','] lr.2 with
+      | none => rw [h2] at h; simp at h
+      | some r2 =>
+        rw [h2] at h; simp only [Option.bind_some] at h
+        cases h3 : readNat r2 with
+        | none => rw [h3] at h; simp at h
+        | some cr =>
+          rw [h3] at h; simp only [Option.bind_some] at h
+          cases h4 : dropPrefix ") : error ".toList cr.2 with
+          | none => rw [h4] at h; simp at h
+          | some r4 =>
+            rw [h4] at h; simp only [Option.bind_some] at h
+            cases h5 : cutAt ':' r4 with
+            | none => rw [h5] at h; simp at h
+            | some tr =>
+              obtain ⟨t, r5⟩ := tr
+              rw [h5] at h; simp only [Option.bind_some] at h
+              have htt := (cutAt_spec ':' r4 t r5 h5).1
+              cases h6 : dropTrailingSpace t with
+              | none => rw [h6] at h; simp at h
+              | some t' =>
+                rw [h6] at h; simp only [Option.bind_some] at h
+                cases h7 : dropPrefix [' '] r5 with
+                | none => rw [h7] at h; simp at h
+                | some r7 =>
+                  rw [h7] at h
+                  simp only [Option.bind_some, Option.pure_def, Option.some.injEq] at h
+                  rw [← h]
+                  refine ⟨hp, ?_⟩
+                  unfold dropTrailingSpace at h6
+                  split at h6
+                  · simp only [Option.some.injEq] at h6
+                    rw [← h6]
+                    intro c hc
+                    exact htt c (List.dropLast_subset _ hc)
+                  · cases h6
+
+/-! ### github-actions -/
+
+def escPropChar (c : Char) : Str :=
+  if c = '%' then "%25".toList else if c = '\r' then "%0D".toList
+  else if c = '\n' then "%0A".toList else if c = ':' then "%3A".toList
+  else if c = ',' then "%2C".toList else [c]
+
+def escDataChar (c : Char) : Str :=
+  if c = '%' then "%25".toList else if c = '\r' then "%0D".toList
+  else if c = '\n' then "%0A".toList else [c]
+
+theorem escProp_cons (c : Char) (t : Str) : escProp (c :: t) = escPropChar c ++ escProp t := by
+  simp only [escProp, List.flatMap_cons, escPropChar]
+
+theorem escData_cons (c : Char) (t : Str) : escData (c :: t) = escDataChar c ++ escData t := by
+  simp only [escData, List.flatMap_cons, escDataChar]
+
+theorem escData_append (s t : Str) : escData (s ++ t) = escData s ++ escData t := by
+  simp [escData, List.flatMap_append]
+
+theorem unescAux_plain (dec : Char → Char → Option Char) {c : Char} (h : c ≠ '%') (t : Str) :
+    unescAux dec 0 (c :: t) = c :: unescAux dec 0 t := by
+  simp [unescAux, h]
+
+/-- the runner's unescape undoes escapeProperty -/
+theorem unescProp_escProp : ∀ s : Str, unescProp (escProp s) = s
+  | [] => by simp [escProp, unescProp, unescAux]
+  | c :: t => by
+    have ih := unescProp_escProp t
+    unfold unescProp at ih ⊢
+    rw [escProp_cons]
+    by_cases h1 : c = '%'
+    · subst h1; simp [escPropChar, unescAux, decProp, ih]
+    · by_cases h2 : c = '\r'
+      · subst h2; simp [escPropChar, unescAux, decProp, ih]
+      · by_cases h3 : c = '\n'
+        · subst h3; simp [escPropChar, unescAux, decProp, ih]
+        · by_cases h4 : c = ':'
+          · subst h4; simp [escPropChar, unescAux, decProp, ih]
+          · by_cases h5 : c = ','
+            · subst h5; simp [escPropChar, unescAux, decProp, ih]
+            · simp only [escPropChar, if_neg h1, if_neg h2, if_neg h3, if_neg h4, if_neg h5, List.singleton_append]
+              rw [unescAux_plain _ h1, ih]
+
+/-- the runner's unescape undoes escapeData -/
+theorem unescData_escData : ∀ s : Str, unescData (escData s) = s
+  | [] => by simp [escData, unescData, unescAux]
+  | c :: t => by
+    have ih := unescData_escData t
+    unfold unescData at ih ⊢
+    rw [escData_cons]
+    by_cases h1 : c = '%'
+    · subst h1; simp [escDataChar, unescAux, decData, ih]
+    · by_cases h2 : c = '\r'
+      · subst h2; simp [escDataChar, unescAux, decData, ih]
+      · by_cases h3 : c = '\n'
+        · subst h3; simp [escDataChar, unescAux, decData, ih]
+        · simp only [escDataChar, if_neg h1, if_neg h2, if_neg h3, List.singleton_append]
+          rw [unescAux_plain _ h1, ih]
+
+theorem escData_pluginSuffix (p : Str) : pluginSuffix escData p = escData (pluginSuffix id p) := by
+  unfold pluginSuffix
+  split
+  · rfl
+  · simp only [id, escData_append]
+    rw [show escData " (".toList = " (".toList from by decide, show escData [')'] = [')'] from by decide]
+
+theorem optKey_hit (key : Str) (n : Nat) (r : Str) (h : NoDigitHead r) :
+    optKey key (key ++ (itoa n ++ r)) = some (n, r) := by
+  simp only [optKey, dropPrefix_append, readNat_itoa n r h]
+
+theorem optKey_miss (key r : Str) (h : dropPrefix key r = none) : optKey key r = some (0, r) := by
+  simp only [optKey, h]
+
+theorem dropPrefix_head_ne {c d : Char} (h : c ≠ d) (ps t : Str) : dropPrefix (c :: ps) (d :: t) = none := by
+  simp [dropPrefix, h]
+
+/-- the keys, as cons cells -/
+theorem kLine : ",line=".toList = ',' :: "line=".toList := rfl
+theorem kCol : ",col=".toList = ',' :: "col=".toList := rfl
+theorem kEndLine : ",endLine=".toList = ',' :: "endLine=".toList := rfl
+theorem kEndCol : ",endColumn=".toList = ',' :: "endColumn=".toList := rfl
+
+theorem miss_colon (key : Str) (hk : ∃ ps, key = ',' :: ps) (t : Str) : optKey key (':' :: t) = some (0, ':' :: t) := by
+  obtain ⟨ps, rfl⟩ := hk
+  exact optKey_miss _ _ (dropPrefix_head_ne (by decide) _ _)
+
+theorem miss_col_endLine (t : Str) : optKey ",col=".toList (",endLine=".toList ++ t) = some (0, ",endLine=".toList ++ t) :=
+  optKey_miss _ _ (by simp [dropPrefix])
+
+theorem ndh_key (key : Str) (hk : ∃ ps, key = ',' :: ps) (t : Str) : NoDigitHead (key ++ t) := by
+  obtain ⟨ps, rfl⟩ := hk
+  exact noDigitHead_cons (by decide)
+
+theorem ndh_colon (t : Str) : NoDigitHead (':' :: t) := noDigitHead_cons (by decide)
+
+theorem takeWhile_stop (P : Char → Bool) (s : Str) (c : Char) (t : Str) (hs : ∀ x ∈ s, P x = true) (hc : P c = false) :
+    (s ++ c :: t).takeWhile P = s ∧ (s ++ c :: t).dropWhile P = c :: t := by
+  rw [List.takeWhile_append_of_pos hs, List.dropWhile_append_of_pos hs]
+  simp [List.takeWhile, List.dropWhile, hc]
+
+theorem parseGhaLine_ghaLine (a : Annot) : parseGhaLine (ghaLine a) = some (ghaF a) := by
+  have hsep : ∀ x ∈ escProp (dispPath a), (x != ',' && x != ':') = true := by
+    intro x hx
+    have := escProp_no_sep _ x hx
+    simp [this.1, this.2]
+  have hdata : escData a.msg ++ pluginSuffix escData a.plugin = escData (withPlugin a.msg a.plugin) := by
+    rw [escData_pluginSuffix, withPlugin, escData_append]
+  have e : ghaLine a = "::error file=".toList ++ (escProp (dispPath a) ++ (ghaPos a ++ (':' :: ':' ::
+      escData (withPlugin a.msg a.plugin)))) := by
+    rw [← hdata]
+    unfold ghaLine ghaLineWith
+    simp only [List.append_assoc]
+    rfl
+  rw [e]
+  simp only [parseGhaLine, dropPrefix_append, Option.bind_eq_bind, Option.bind_some]
+  by_cases h1 : a.sl = 0
+  · have hp : ghaPos a = [] := by simp [ghaPos, h1]
+    rw [hp, List.nil_append]
+    obtain ⟨t1, t2⟩ := takeWhile_stop (fun c => c != ',' && c != ':') (escProp (dispPath a)) ':' (':' :: escData (withPlugin a.msg a.plugin)) hsep (by decide)
+    rw [t1, t2]
+    simp only [miss_colon _ ⟨_, kLine⟩, miss_colon _ ⟨_, kCol⟩, miss_colon _ ⟨_, kEndLine⟩, miss_colon _ ⟨_, kEndCol⟩, Option.bind_some]
+    simp [dropPrefix, ghaF, h1, unescProp_escProp, unescData_escData]
+  · -- the tail after the optional properties
+    generalize hD : (':' :: ':' :: escData (withPlugin a.msg a.plugin)) = D
+    have hDn : NoDigitHead D := by rw [← hD]; exact ndh_colon _
+    have hfin : ∀ (l c el ec : Nat), (dropPrefix "::".toList D).bind (fun r => some
+        ({ path := unescProp (escProp (dispPath a)), line := l, col := c, endLine := el, endCol := ec, msg := unescData r } : GhaF))
+        = some { path := dispPath a, line := l, col := c, endLine := el, endCol := ec, msg := withPlugin a.msg a.plugin } := by
+      intro l c el ec
+      rw [← hD]
+      simp [dropPrefix, unescProp_escProp, unescData_escData]
+    -- end column
+    have hEC : ∀ (X : Str), X = (if a.ec = 0 then [] else ",endColumn=".toList ++ itoa a.ec) →
+        optKey ",endColumn=".toList (X ++ D) = some (a.ec, D) := by
+      intro X hX
+      by_cases h4 : a.ec = 0
+      · rw [hX, if_pos h4, h4, List.nil_append, ← hD]; exact miss_colon _ ⟨_, kEndCol⟩ _
+      · rw [hX, if_neg h4, List.append_assoc]; exact optKey_hit _ _ _ hDn
+    have hE : ∀ (Y : Str), Y = (if a.el = 0 then [] else ",endLine=".toList ++ itoa a.el ++
+          (if a.ec = 0 then [] else ",endColumn=".toList ++ itoa a.ec)) →
+        ((optKey ",endLine=".toList (Y ++ D)).bind fun x => (optKey ",endColumn=".toList x.2).bind fun y =>
+          some (x.1, y.1, y.2)) = some (a.el, (if a.el = 0 then 0 else a.ec), D) := by
+      intro Y hY
+      by_cases h3 : a.el = 0
+      · rw [hY, if_pos h3, h3, List.nil_append, ← hD]
+        simp only [miss_colon _ ⟨_, kEndLine⟩, miss_colon _ ⟨_, kEndCol⟩, Option.bind_some, if_true]
+      · rw [hY, if_neg h3, List.append_assoc, List.append_assoc]
+        have hnd : NoDigitHead ((if a.ec = 0 then [] else ",endColumn=".toList ++ itoa a.ec) ++ D) := by
+          by_cases h4 : a.ec = 0
+          · rw [if_pos h4, List.nil_append]; exact hDn
+          · rw [if_neg h4, List.append_assoc]; exact ndh_key _ ⟨_, kEndCol⟩ _
+        rw [optKey_hit _ _ _ hnd]
+        simp only [Option.bind_some, hEC _ rfl, if_neg h3]
+    -- the end part, seen from the column key
+    generalize hEdef : (if a.el = 0 then [] else ",endLine=".toList ++ itoa a.el ++
+          (if a.ec = 0 then [] else ",endColumn=".toList ++ itoa a.ec)) = E at hE
+    have hEnd : NoDigitHead (E ++ D) := by
+      by_cases h3 : a.el = 0
+      · rw [← hEdef, if_pos h3, List.nil_append]; exact hDn
+      · rw [← hEdef, if_neg h3, List.append_assoc, List.append_assoc]; exact ndh_key _ ⟨_, kEndLine⟩ _
+    have hColMiss : optKey ",col=".toList (E ++ D) = some (0, E ++ D) := by
+      by_cases h3 : a.el = 0
+      · rw [← hEdef, if_pos h3, List.nil_append, ← hD]; exact miss_colon _ ⟨_, kCol⟩ _
+      · rw [← hEdef, if_neg h3, List.append_assoc, List.append_assoc]; exact miss_col_endLine _
+    have hC : ∀ (X : Str), X = (if a.sc = 0 then [] else ",col=".toList ++ itoa a.sc) →
+        optKey ",col=".toList (X ++ (E ++ D)) = some (a.sc, E ++ D) ∧ NoDigitHead (X ++ (E ++ D)) := by
+      intro X hX
+      by_cases h2 : a.sc = 0
+      · rw [hX, if_pos h2, h2, List.nil_append]; exact ⟨hColMiss, hEnd⟩
+      · rw [hX, if_neg h2, List.append_assoc]; exact ⟨optKey_hit _ _ _ hEnd, ndh_key _ ⟨_, kCol⟩ _⟩
+    have hpos : ghaPos a ++ D = ',' :: ("line=".toList ++ (itoa a.sl ++
+        ((if a.sc = 0 then [] else ",col=".toList ++ itoa a.sc) ++ (E ++ D)))) := by
+      rw [← hEdef]
+      simp only [ghaPos, if_neg h1, List.append_assoc]
+      rfl
+    rw [hpos]
+    obtain ⟨t1, t2⟩ := takeWhile_stop (fun c => c != ',' && c != ':') (escProp (dispPath a)) ','
+      ("line=".toList ++ (itoa a.sl ++ ((if a.sc = 0 then [] else ",col=".toList ++ itoa a.sc) ++ (E ++ D)))) hsep (by decide)
+    rw [t1, t2]
+    rw [show ',' :: ("line=".toList ++ (itoa a.sl ++ ((if a.sc = 0 then [] else ",col=".toList ++ itoa a.sc) ++ (E ++ D))))
+        = ",line=".toList ++ (itoa a.sl ++ ((if a.sc = 0 then [] else ",col=".toList ++ itoa a.sc) ++ (E ++ D))) from rfl,
+      optKey_hit _ _ _ (hC _ rfl).2]
+    simp only [Option.bind_some, (hC _ rfl).1]
+    have := hE E rfl
+    cases hk : optKey ",endLine=".toList (E ++ D) with
+    | none => rw [hk] at this; simp at this
+    | some x =>
+      rw [hk] at this
+      simp only [Option.bind_some] at this ⊢
+      cases hk2 : optKey ",endColumn=".toList x.2 with
+      | none => rw [hk2] at this; simp at this
+      | some y =>
+        rw [hk2] at this
+        simp only [Option.bind_some, Option.some.injEq, Prod.mk.injEq] at this ⊢
+        obtain ⟨e1, e2, e3⟩ := this
+        rw [e3, hfin, e1, e2]
+        simp [ghaF, h1]
+
+/-! ### junit -/
+
+theorem parsePosSuffix_junitPosSuffix (sl sc : Nat) : parsePosSuffix (junitPosSuffix sl sc) = some (sl, sc) := by
+  unfold junitPosSuffix
+  by_cases h2 : sc = 0
+  · by_cases h1 : sl = 0
+    · simp [h1, h2, parsePosSuffix]
+    · simp only [h2, ne_eq, not_true_eq_false, if_false, h1, not_false_eq_true, if_true, parsePosSuffix,
+        readNat_itoa_end]
+  · simp only [ne_eq, h2, not_false_eq_true, if_true, List.cons_append, parsePosSuffix, readNat_itoa_under, readNat_itoa_end]
+
+/-- the testcase decoder inverts the JUnit rendering when the text line it carries decodes -/
+theorem parseJunitCase_junitCase (a : Annot) (h : ∀ c ∈ dispPath a, c ≠ ':') :
+    parseJunitCase (trimProto (dispPath a)) (junitCase a) = some (junitF a) := by
+  simp only [parseJunitCase, junitCase, junitCaseName, junitName, dropPrefix_append, Option.bind_eq_bind,
+    Option.bind_some, parsePosSuffix_junitPosSuffix, parseTextLine_textLine a h]
+  rfl
+
+/-! ### whole documents -/
+
+theorem mapM_map_some {α β γ : Type} {f : α → β} {g : β → Option γ} {h : α → γ} :
+    ∀ (l : List α), (∀ a ∈ l, g (f a) = some (h a)) → (l.map f).mapM g = some (l.map h)
+  | [], _ => rfl
+  | a :: as, hl => by
+    simp only [List.map_cons, List.mapM_cons, hl a List.mem_cons_self,
+      mapM_map_some as (fun b hb => hl b (List.mem_cons_of_mem _ hb)), Option.bind_eq_bind, Option.bind_some,
+      Option.pure_def]
+
+/-! ### shared fields -/
+
+/-- `s` shows nothing that `u` does not show the same way -/
+structure Shared.Sub (s u : Shared) : Prop where
+  file : s.file = none ∨ s.file = u.file
+  fileFlat : s.fileFlat = none ∨ s.fileFlat = u.fileFlat
+  suite : s.suite = none ∨ s.suite = u.suite
+  line : s.line = none ∨ s.line = u.line
+  col : s.col = none ∨ s.col = u.col
+  endLine : s.endLine = none ∨ s.endLine = u.endLine
+  endCol : s.endCol = none ∨ s.endCol = u.endCol
+  rule : s.rule = none ∨ s.rule = u.rule
+  ruleFlat : s.ruleFlat = none ∨ s.ruleFlat = u.ruleFlat
+  text : s.text = none ∨ s.text = u.text
+  textFlat : s.textFlat = none ∨ s.textFlat = u.textFlat
+  message : s.message = none ∨ s.message = u.message
+
+theorem keep_comm {α : Type} {x y u : Option α} (hx : x = none ∨ x = u) (hy : y = none ∨ y = u) :
+    keep x y = keep y x := by
+  cases x <;> cases y <;> cases u <;> simp_all [keep]
+
+/-- two views of the same annotation agree on every field both carry -/
+theorem restrict_comm {s t u : Shared} (hs : s.Sub u) (ht : t.Sub u) : s.restrict t = t.restrict s := by
+  simp only [Shared.restrict, keep_comm hs.file ht.file, keep_comm hs.fileFlat ht.fileFlat,
+    keep_comm hs.suite ht.suite, keep_comm hs.line ht.line, keep_comm hs.col ht.col,
+    keep_comm hs.endLine ht.endLine, keep_comm hs.endCol ht.endCol, keep_comm hs.rule ht.rule,
+    keep_comm hs.ruleFlat ht.ruleFlat, keep_comm hs.text ht.text, keep_comm hs.textFlat ht.textFlat,
+    keep_comm hs.message ht.message]
+
+theorem known_sub (n : Nat) : known n = none ∨ known n = some (atLeast1 n) := by
+  unfold known atLeast1
+  by_cases h : n = 0 <;> simp [h]
+
+theorem known_ite_sub (c : Prop) [Decidable c] (n : Nat) :
+    known (if c then 0 else n) = none ∨ known (if c then 0 else n) = some (atLeast1 n) := by
+  by_cases h : c
+  · exact Or.inl (by simp [h, known])
+  · simp only [if_neg h]; exact known_sub n
+
+theorem viewText_sub (a : Annot) : (viewText (textF a)).Sub (Shared.full a) := by
+  constructor <;> simp [viewText, textF, Shared.full]
+
+/-- what a decoded record of ANY format shows is part of what the annotation is -/
+theorem view_sub (f : Format) (a : Annot) : (view (proj f a)).Sub (Shared.full a) := by
+  cases f with
+  | text => exact viewText_sub a
+  | msvs => constructor <;> simp [view, proj, msvsF, Shared.full]
+  | gha =>
+    exact {
+      file := Or.inr rfl, fileFlat := Or.inr rfl, suite := Or.inr rfl,
+      line := known_sub a.sl, col := known_ite_sub _ a.sc, endLine := known_ite_sub _ a.el,
+      endCol := by
+        by_cases h : a.sl = 0
+        · exact Or.inl (by simp [view, proj, ghaF, h, known])
+        · simp only [view, proj, ghaF, if_neg h]; exact known_ite_sub _ a.ec,
+      rule := Or.inl rfl, ruleFlat := Or.inl rfl, text := Or.inl rfl, textFlat := Or.inl rfl,
+      message := Or.inr rfl }
+  | json =>
+    have hp : (jsonRec a).path = [] ∨ (jsonRec a).path = dispPath a := by
+      simp only [jsonRec, pathOf, dispPath]
+      cases a.file with
+      | none => exact Or.inl rfl
+      | some p => exact Or.inr rfl
+    have hm : shownMsgOf a.type a.msg = shownMsg a := by
+      simp only [shownMsgOf, shownTypeOf, shownMsg]
+    have ht : shownTypeOf a.type = shownType a := rfl
+    have hfile : ∀ (g : Str → Str),
+        (if (jsonRec a).path = [] then none else some (g (jsonRec a).path)) = none ∨
+        (if (jsonRec a).path = [] then none else some (g (jsonRec a).path)) = some (g (dispPath a)) := by
+      intro g
+      rcases hp with hp | hp
+      · exact Or.inl (by simp [hp])
+      · rw [hp]
+        by_cases h : dispPath a = []
+        · exact Or.inl (by simp [h])
+        · exact Or.inr (by simp [h])
+    exact {
+      file := hfile id, fileFlat := hfile oneLine, suite := hfile trimProto,
+      line := Or.inr rfl, col := Or.inr rfl, endLine := Or.inr rfl, endCol := Or.inr rfl,
+      rule := Or.inr rfl, ruleFlat := Or.inr rfl,
+      text := Or.inr (by simp only [view, proj, jsonRec, Shared.full, hm]),
+      textFlat := Or.inr (by simp only [view, proj, jsonRec, Shared.full, hm]),
+      message := Or.inr rfl }
+  | junit =>
+    have ht : shownTypeOf a.type = shownType a := rfl
+    have := viewText_sub a
+    constructor <;> simp [view, proj, junitF, Shared.full, viewText, textF, ht]
+
+/-- `R` holds between the i-th elements of two lists of the same length, for every i -/
+inductive InOrder {α β : Type} (R : α → β → Prop) : List α → List β → Prop where
+  | nil : InOrder R [] []
+  | cons {a : α} {b : β} {l1 : List α} {l2 : List β} : R a b → InOrder R l1 l2 → InOrder R (a :: l1) (b :: l2)
+
+theorem InOrder.length_eq {α β : Type} {R : α → β → Prop} {l1 : List α} {l2 : List β} (h : InOrder R l1 l2) :
+    l1.length = l2.length := by
+  induction h with
+  | nil => rfl
+  | cons _ _ ih => simp [ih]
+
+/-! ### side conditions of the decoders -/
+
+/-- Where a format does not escape, the decoder needs the separator it splits at not to occur in
+    the field in front of it:
+    * text — no ':' in the displayed path (the path ends at the first ':') and no line feed in the
+      line (records are lines);
+    * msvs — no '(' in the displayed path, no ':' in the shown type;
+    * github-actions, json — nothing (escaped / field level);
+    * junit — the text line carried as failure message must decode (no ':' in the path; line feeds
+      are fine, XML escapes them), and grouping by path must not reorder (`DispInj`). -/
+def Side : Format → List Annot → Prop
+  | .text, as => ∀ a ∈ as, (∀ c ∈ dispPath a, c ≠ ':') ∧ (∀ c ∈ textLine a, c ≠ '\n')
+  | .msvs, as => ∀ a ∈ as, (∀ c ∈ dispPath a, c ≠ '(') ∧ (∀ c ∈ shownType a, c ≠ ':')
+  | .gha, _ => True
+  | .json, _ => True
+  | .junit, as => DispInj as ∧ ∀ a ∈ as, ∀ c ∈ dispPath a, c ≠ ':'
+
+theorem parseItem_render (f : Format) (as : List Annot) (h : Side f as) :
+    ∀ a ∈ as, parseItem f (render f a) = some (proj f a) := by
+  intro a ha
+  cases f with
+  | text => simp only [parseItem, render, proj, parseTextLine_textLine a (h a ha).1, Option.map_some]
+  | msvs => simp only [parseItem, render, proj, parseMsvsLine_msvsLine a (h a ha).1 (h a ha).2, Option.map_some]
+  | gha => simp only [parseItem, render, proj, parseGhaLine_ghaLine a, Option.map_some]
+  | json => rfl
+  | junit => simp only [parseItem, render, proj, parseJunitCase_junitCase a (h.2 a ha), Option.map_some]
 
 end BufModel.Annot
